@@ -118,7 +118,7 @@ fn fixture(i: usize) -> Fixture {
         l.add_text("https://x/other.ts", "export const other = 1;\n");
         let mut a = RegPackage {
           name: "@s/a".into(),
-          versions: vec![RegVersion::new("1.0.0", &[("/mod.ts", "import \"jsr:@s/b@^1\";\nimport \"npm:x@1\";\nimport \"./sub.ts\";\nexport const a = 1;\n"), ("/sub.ts", "export const s = 1;\n")])],
+          versions: vec![RegVersion::new("1.0.0", &[("/mod.ts", "import \"jsr:@s/b@^1\";\nimport \"npm:x@1\";\nimport \"./sub.ts\";\nexport const a = 1;\n"), ("/sub.ts", "import \"./cfg.json\";\nexport const s = 1;\n"), ("/cfg.json", "{\"k\": 1}")])],
           raw_meta: None,
         };
         let mut b = RegPackage {
@@ -350,6 +350,21 @@ fn body_sched(fixtures: Vec<usize>, mode: SchedMode) -> impl Fn(&Ch) -> Run + Sy
     let first_fault = injected.first().map(|i| i.fault).unwrap_or("none");
     if r0.is_err() {
       run.violate("fault-free-build-did-not-finish", "deadlock without faults", case(json!({})));
+    }
+    // a package file that imports JSON statically and without attribute: an
+    // error entry, whatever dynamic branches the build has queued by the time
+    // the package's files are visited (absolute expectation: the comparison
+    // with the fault-free build below would not see a wrong answer they share)
+    if matches!(fi, 1 | 2) {
+      let cfg = url("https://jsr.io/@s/a/1.0.0/cfg.json");
+      match g0.try_get(&cfg) {
+        Err(e) if err_kind(e) == "UnsupportedMediaType" => {}
+        other => run.violate(
+          "statically-imported-json-without-attribute-accepted-in-a-registry-package",
+          format!("{cfg} is imported by sub.ts with a plain static import; its entry is {:?}", other.map(|m| m.map(|m| m.specifier().to_string())).map_err(|e| err_kind(e))),
+          case(json!({})),
+        ),
+      }
     }
     // the npm resolver's per-requirement answers land on the requirements they
     // were given for: a failed requirement is an error entry of *its*
